@@ -140,30 +140,50 @@ class Tree:
                 os.utime(os.path.join(root, p), (FIXED_MTIME, FIXED_MTIME))
         os.utime(root, (FIXED_MTIME, FIXED_MTIME))
 
-    def to_zip(self, explicit_dirs: bool = True, utf8_flag: typing.Optional[bool] = None,
-               date_time=(2020, 9, 13, 12, 26, 40)) -> bytes:
-        """Archive of this tree.  Symlinks become symlink members."""
+    def to_zip(self, explicit_dirs: bool = True, date_time=(2020, 9, 13, 12, 26, 40),
+               omit_dirs: typing.Sequence[bytes] = ()) -> bytes:
+        """Archive of this tree.  Symlinks become symlink members.  Names that are valid
+        UTF-8 are stored as such (zipfile sets the UTF-8 flag for non-ASCII ones); other
+        byte strings are stored raw without the flag, the way zip(1) does on POSIX (done by
+        writing an ASCII placeholder of the same length and patching the archive)."""
         bio = io.BytesIO()
+        patches: typing.List[typing.Tuple[bytes, bytes]] = []
+        counter = [0]
+
+        def zname(p: bytes, suffix: bytes = b"") -> str:
+            raw = p + suffix
+            try:
+                return raw.decode("utf-8")
+            except UnicodeDecodeError:
+                counter[0] += 1
+                tok = (b"ZQ%05d" % counter[0]).ljust(len(raw), b"_")
+                if len(tok) != len(raw):
+                    raise ValueError("raw member name too short to patch: %r" % raw)
+                patches.append((tok, raw))
+                return tok.decode("ascii")
+
         with zipfile.ZipFile(bio, "w", zipfile.ZIP_DEFLATED) as z:
             for p, n in sorted(self.nodes.items()):
-                name = _zipname(p)
-                if name is None:
-                    continue
                 if n["kind"] == "dir":
-                    if explicit_dirs:
-                        zi = zipfile.ZipInfo(name + "/", date_time)
+                    if explicit_dirs and p not in omit_dirs:
+                        zi = zipfile.ZipInfo(zname(p, b"/"), date_time)
                         zi.external_attr = (0o40755 << 16) | 0x10
                         z.writestr(zi, b"")
                 elif n["kind"] == "file":
-                    zi = zipfile.ZipInfo(name, date_time)
+                    zi = zipfile.ZipInfo(zname(p), date_time)
                     zi.external_attr = (stat.S_IFREG | n["mode"]) << 16
                     zi.compress_type = zipfile.ZIP_DEFLATED
                     z.writestr(zi, n["data"])
                 elif n["kind"] == "symlink":
-                    zi = zipfile.ZipInfo(name, date_time)
+                    zi = zipfile.ZipInfo(zname(p), date_time)
                     zi.external_attr = (stat.S_IFLNK | 0o777) << 16
                     z.writestr(zi, n["target"])
-        return bio.getvalue()
+        data = bio.getvalue()
+        for tok, raw in patches:
+            if data.count(tok) != 2:
+                raise ValueError("placeholder %r occurs %d times" % (tok, data.count(tok)))
+            data = data.replace(tok, raw)
+        return data
 
 
 def _zipname(p: bytes) -> typing.Optional[str]:
